@@ -4,7 +4,7 @@ import json, sys, os
 id_, prop, missed, summary, needs, det = sys.argv[1:7]
 checks = sys.argv[7:] or [prop]
 d = os.path.join(os.path.dirname(os.path.dirname(os.path.abspath(__file__))), "seeded", id_)
-meta = {"property": prop, "round": 2, "summary": summary, "needs": needs, "detected_by": det, "initially_missed": bool(int(missed)),
+meta = {"property": prop, "round": int(os.environ.get("ROUND", "2")), "summary": summary, "needs": needs, "detected_by": det, "initially_missed": bool(int(missed)),
         "verified": "agent report (build ok, 56/56 existing tests, demo fails with / passes without); patch applied to /repo and checks run by me (tools/try_seeded.sh); own scratch-worktree confirmation via tools/verify_seeded_r2.sh (demo passes on HEAD, fails with the patch, existing suite 56/56 with the patch)",
         "commands": ["tools/try_seeded.sh /verif/seeded/%s/patch.diff %s" % (id_, " ".join(checks)),
                      "tools/verify_seeded_r2.sh %s:<crate>:<demo path as in README>" % id_]}
